@@ -70,7 +70,7 @@ var sqliteTypes = []sqliteType{
 	{reflect.TypeOf(SNullable{}), []string{"age", "id", "ni", "nick", "ns"}, "id INTEGER, nick TEXT, age INTEGER, ns TEXT, ni INTEGER"},
 	{reflect.TypeOf(SOmit{}), []string{"id", "name", "score"}, "id INTEGER, name TEXT, score REAL"},
 	{reflect.TypeOf(SOmit2{}), []string{"cnt", "id", "note"}, "id INTEGER, note TEXT, cnt INTEGER"},
-	{reflect.TypeOf(SOmitPtr{}), []string{"cnt", "id", "label"}, "id INTEGER, cnt INTEGER DEFAULT 7, label TEXT DEFAULT 'unset'"},
+	{reflect.TypeOf(SOmitPtr{}), []string{"cnt", "id", "label"}, "id INTEGER, cnt INTEGER, label TEXT"},
 	{reflect.TypeOf(SEmb{}), []string{"active", "data", "extra", "id", "name", "score"}, "id INTEGER, name TEXT, score REAL, data BLOB, active BOOLEAN, extra TEXT"},
 }
 
